@@ -19,8 +19,9 @@ Documented == {"ok", "bad_format", "out_of_range", "invalid_argument", "unicode_
 (* ---- fmt: the model outcome of one sink ---------------------------------*)
 SinkMode(k) == CASE k = "format" -> plat.dflt [] k = "_stfmt" -> plat.dflt [] k = "format_check" -> "check"
                  [] k = "format_substitute" -> "substitute" [] k = "format_assume" -> "assume" [] OTHER -> "none"
-IsWide(k) == k \in {"writef_wostream", "writef_u16ostream", "writef_u32ostream"}
-WideEnc(k) == CASE k = "writef_wostream" -> WcharEnc [] k = "writef_u16ostream" -> "utf16" [] OTHER -> "utf32"
+(* (the _w sinks are streams with a pending width and fill: writef must not be affected by them) *)
+IsWide(k) == k \in {"writef_wostream", "writef_wostream_w", "writef_u16ostream", "writef_u32ostream"}
+WideEnc(k) == CASE k \in {"writef_wostream", "writef_wostream_w"} -> WcharEnc [] k = "writef_u16ostream" -> "utf16" [] OTHER -> "utf32"
 
 (* is the recorded result s of sink k what the model result r of the call requires? *)
 SinkOk(k, s, r) ==
@@ -29,7 +30,7 @@ SinkOk(k, s, r) ==
         ELSE ConvAllowed("utf8", "utf8", SinkMode(k), TRUE, Bytes(r.chunks), s.res, s.out)
     ELSE IF k = "format_latin_1" THEN
         IF r.res # "ok" THEN s.res = r.res ELSE s.res = "ok" /\ s.out = Latin1Sink(r.chunks)
-    ELSE IF k \in {"printf_FILE", "writef_ostream"} THEN
+    ELSE IF k \in {"printf_FILE", "writef_ostream", "writef_ostream_w"} THEN
         IF r.res # "ok" THEN s.res = r.res ELSE s.res = "ok" /\ s.out = ByteSink(r.chunks)
     ELSE IF IsWide(k) THEN
         \* a wide sink may meet text it cannot transcode before the call's own error
@@ -131,7 +132,9 @@ FloatRecs(ev) ==
         bs == SetToSeq(bad)
     IN IF harness THEN << [line |-> l, i |-> ev.i, k |-> 0, what |-> "printf spec", props |-> <<"HARNESS">>, kf |-> "none"] >>
        ELSE [j \in 1..Len(bs) |-> [line |-> l, i |-> ev.i, k |-> bs[j], what |-> "sink", cls |-> "float/" \o ev.sinks[bs[j]].k \o "/" \o ev.sinks[bs[j]].res,
-                                   props |-> <<"C13">>, kf |-> KF_Float(ev, ev.sinks[bs[j]])]]
+                                   props |-> IF ev.sinks[bs[j]].res \notin {"ok", "bad_format", "out_of_range", "invalid_argument", "unicode_error"}
+                                             THEN <<"C10", "C13">> ELSE <<"C13">>,      \* an abort or a foreign exception is also C10's
+                                   kf |-> KF_Float(ev, ev.sinks[bs[j]])]]
 ParseFOneOk(size, r) ==
     /\ r.v = r.libc /\ r.plain = r.libc
     /\ IF size = 0 THEN r.ok = 0 /\ r.full = 1
